@@ -35,26 +35,55 @@ All randomness comes from the `rng` passed in (a Hypothesis `st.randoms` object)
 """
 
 import collections
+import os
 
-# An aggregating expression inside order_by(..) / limit(..) of a rule WITHOUT a body
-# (`P(1) order_by(Max{x})`) makes the Python parser raise KeyError('operator'): the
-# denotation's argument dicts are shared between the rule and the generated @OrderBy
-# annotation (only rules with a body are deep-copied by the DNF rewrite) and
-# AggergationsAsExpressions rewrites them twice; the C++ parser accepts.
-# Finding D12 of C06; excluded by construction while open.
-AVOID_DEN_AGG = True
 
+def excluded(name):
+    """Exclusion switch of an open finding.  Default on; VERIF_SYNTAX_EXCLUDE_<NAME>=0
+    switches it off (the generator then produces the input class again and the checks
+    report it under the finding's bucket key)."""
+    return os.environ.get('VERIF_SYNTAX_EXCLUDE_' + name, '1') != '0'
+
+
+# FINDING bodyless_aggregation_layout (C15 both parsers, C06 for some shapes).
 # `Max{y}` is accepted but `Max{ y }`, `Max{y\n}` and `Max{(y)}` are rejected by both
-# parsers (the expression of a body-less `Op{..}` is parsed unstripped); with a number,
-# `Max{5 }`, Python accepts (float() strips) and C++ rejects.  Finding D13 (C15, C06).
-AVOID_BODYLESS_AGG_LAYOUT = True
+# parsers: the value of an `Op{..}` without `:- body` is parsed unstripped.  With a
+# number the outcomes even differ: `Max{5 }` Python accepts (float() strips; the number
+# keeps its blanks), C++ rejects; `Max{-2\n}` Python keeps the number "-2\n", C++ reads
+# a unary minus.  While the exclusion is on, nothing but bare comments is put inside the
+# braces and the expression is not parenthesised; the tokens concerned are tagged
+# (Tok.risk) so that with the exclusion off the checks can name the class.
+EXCLUDE_BODYLESS_AGG_LAYOUT = excluded('BODYLESS_AGG_LAYOUT')
+RISK_AGG = 'bodyless_aggregation_layout'
+
+# DOMAIN RESTRICTION (not a finding).  order_by(..) / limit(..) are documented nowhere
+# (docs/syntax.md knows `distinct` only); the repository's programs put string literals
+# into order_by and a number into limit.  The generator widens that to variables,
+# operators, calls and aggregations as long as both parsers agree, with one exception:
+# an aggregating expression inside the denotation of a rule WITHOUT a body
+# (`P(1) order_by(Max{x})`) is left out, because it is neither documented nor used nor
+# meaningful (there is nothing to aggregate over), and the Python parser fails on it
+# with KeyError('operator') (the argument dicts are shared between the rule and the
+# generated @OrderBy annotation and get rewritten twice) while the C++ parser accepts.
+# VERIF_SYNTAX_WIDEN_DEN_AGG=1 generates the shape again (C06 then reports the bucket
+# cpp_accepts_py_internal:KeyError:parse.py:Convert).
+DENOTATION_AGG_NEEDS_BODY = os.environ.get('VERIF_SYNTAX_WIDEN_DEN_AGG', '0') != '1'
+
+# DOMAIN RESTRICTION (not a finding).  '..' literals are Python literals for the Python
+# parser (ast.literal_eval) and "a conservative subset of Python's string escapes" for
+# the C++ parser (its own comment); the literal form is not in docs/syntax.md.  The
+# generator spells contents with the escapes the repository's programs use
+# (\\ \' \" \n \r \t \xhh<0x80 \uhhhh \Uhhhhhhhh) - see sq_escape.
 
 KEYWORDS = {'in', 'is', 'not', 'if', 'then', 'else', 'combine', 'import', 'as', 'distinct',
             'order_by', 'limit', 'couldbe', 'cantbe', 'shouldbe', 'true', 'false', 'null',
             'nil', 'inf', 'nan', 'infinity'}
 
 VARS = ['x', 'y', 'z', 'a', 'b', 'c', 'n', 'm', 'k', 'v', 'w', 'r', 's', 't', 'l', 'xs',
-        'x1', 'y2', 'a_b', '_u', 'foo', 'bar', 'col0', 'val', 'acc', 'p_1']
+        'x1', 'y2', 'a_b', '_u', 'foo', 'bar', 'col0', 'val', 'acc', 'p_1',
+        # keywords inside identifiers: the alphanumeric separators (then, else, limit,
+        # distinct, ..) must not split a word
+        'elsewhere', 'then1', 'athen', 'limit2', 'distinct1', 'inx', 'isnot']
 PREDS = ['P', 'Q', 'R', 'T', 'S', 'A', 'B', 'Foo', 'Bar2', 'My_Pred', 'Edge', 'Num', 'E0',
          'Parent', 'U_v']
 FUNCS = ['F', 'G', 'ToString', 'Range', 'Size', 'Greatest', 'Substr', 'ToInt64', 'Abs']
@@ -83,17 +112,18 @@ COMMENT_WORDS = NASTY + ['"', "'", '"""', 'P(x) :- Q(x);', 'todo', '\t']
 
 
 class Tok(object):
-    __slots__ = ('text', 'kind', 'pre', 'glue', 'reg')
+    __slots__ = ('text', 'kind', 'pre', 'glue', 'reg', 'risk')
 
-    def __init__(self, text, kind, pre='', glue=False, reg=''):
+    def __init__(self, text, kind, pre='', glue=False, reg='', risk=''):
         self.text = text
         self.kind = kind
         self.pre = pre
         self.glue = glue
         self.reg = reg
+        self.risk = risk     # name of the finding whose input class layout HERE makes
 
     def copy(self, **kw):
-        t = Tok(self.text, self.kind, self.pre, self.glue, self.reg)
+        t = Tok(self.text, self.kind, self.pre, self.glue, self.reg, self.risk)
         for k, v in kw.items():
             setattr(t, k, v)
         return t
@@ -133,8 +163,9 @@ def sq_escape(content, rng=None):
 
 
 class Gen(object):
-    def __init__(self, rng, max_depth=2, arraysub=True):
+    def __init__(self, rng, max_depth=2, arraysub=True, extra_preds=()):
         self.opt_arraysub = arraysub
+        self.extra_preds = list(extra_preds)    # local names of imported predicates
         self.r = rng
         self.max_depth = max_depth
         self.strings = []          # contents of generated string literals, in order
@@ -184,6 +215,12 @@ class Gen(object):
             return item.copy(glue=True)
         kind, items = item
         return (kind, [self._with_glue(items[0])] + list(items[1:]))
+
+    def _with_risk(self, item, risk):
+        if isinstance(item, Tok):
+            return item.copy(risk=risk)
+        kind, items = item
+        return (kind, [self._with_risk(items[0], risk)] + list(items[1:]))
 
     def after_colon(self, items):
         # `a:-1` would read as `a :- 1`
@@ -264,7 +301,7 @@ class Gen(object):
             return self.subscript(d)
         if k == 17:
             if not self.opt_arraysub:
-                self.excluded['D14_array_subscript'] += 1
+                self.excluded['option:no_array_subscript'] += 1
                 return [self.T(self.var(), 'var')]
             return self.arraysub(d)
         if k == 18 and d < self.max_depth:
@@ -369,6 +406,10 @@ class Gen(object):
             name = self.pick(PATHS)
             self.feat('table_path' if name[0] != '`' else 'table_backtick')
             kind = 'path'
+        elif names is None and self.extra_preds and self.p(0.3):
+            name = self.pick(self.extra_preds)
+            self.feat('call_of_imported_predicate')
+            kind = 'name'
         else:
             kind = 'name'
         a, _ = self.args(d)
@@ -417,9 +458,9 @@ class Gen(object):
             return self.is_in_expr(d, operand or noeq)
         if k == 22:
             return self.call(d)
-        return self.chain(noeq, operand)
+        return self.chain(noeq, operand, force)
 
-    def chain(self, noeq=False, operand=False):
+    def chain(self, noeq=False, operand=False, force=False):
         """`a op b op c [op d]` over atoms without any parentheses: the tree is decided
         by the parsers' operator order and associativity alone."""
         self.feat('operator_chain')
@@ -435,7 +476,10 @@ class Gen(object):
             self.feat('op:' + op)
             out += [self.T(op, 'op', pre=' ')] + \
                 self.sp([self.E(self.expr(self.max_depth, operand=True))])
-        if operand and self.r.randrange(3) == 0:
+        # force: the caller puts us where a bare operator expression would regroup with
+        # its neighbour (`a = b is null` is `a = (b is null)`), so the parentheses are
+        # part of the program, not redundant layout
+        if (operand and self.r.randrange(3) == 0) or force:
             return self.parens(out)
         return [('N', out)]
 
@@ -561,13 +605,16 @@ class Gen(object):
             return out + [self.T('}', 'close')]
         self.feat('combine_braces_no_body')
         e = self.expr(d + 1)
-        if AVOID_BODYLESS_AGG_LAYOUT:
-            # `Max{ y }` and `Max{(y)}` are rejected, `Max{y}` is accepted (finding D13):
+        if EXCLUDE_BODYLESS_AGG_LAYOUT:
             # only bare comments inside the braces, no redundant parentheses
-            self.excluded['D13_layout_in_bodyless_aggregation'] += 1
+            self.excluded['finding:' + RISK_AGG] += 1
             e = [self._with_glue(e[0])] + e[1:]
             return out + [('E0agg', e), self.T('}', 'close', glue=True)]
-        return out + [('E', e), self.T('}', 'close')]
+        # layout before the first token / before '}' and parentheses around the whole
+        # value are the finding's input class: tagged, so that the renderer can also
+        # produce the text without them
+        e = [self._with_risk(e[0], RISK_AGG)] + e[1:]
+        return out + [('E0agg', e), self.T('}', 'close').copy(risk=RISK_AGG)]
 
     def is_in_expr(self, d, operand):
         k = self.r.randrange(3)
@@ -715,14 +762,15 @@ class Gen(object):
                 if k < 3:
                     e = self.string_lit()
                 elif k < 5 or i == 0:
-                    # the first argument never starts with '(' (see noise.AVOID_DEN_PAREN)
+                    # the first argument never starts with '(' by itself (see
+                    # noise.EXCLUDE_DEN_PAREN for redundant parentheses around it)
                     e = [self.T(self.var(), 'var')]
                 elif k == 5:
                     e = self.binary(2)
                 elif k == 6:
                     e = self.call(2, FUNCS)
-                elif AVOID_DEN_AGG and not has_body:
-                    self.excluded['D12_aggregation_in_denotation_of_fact'] += 1
+                elif DENOTATION_AGG_NEEDS_BODY and not has_body:
+                    self.feat('domain:no_aggregation_in_denotation_of_fact')
                     e = [self.T(self.var(), 'var')]
                 else:
                     e = self.ultra_combine(2)
